@@ -231,6 +231,23 @@ Definition poscar_read (g : Z -> bool) (content : list (list Z)) (s : sc) : sc *
     end
   end.
 
+(* POSCAR with a VASP5 element-name line: the k-th coordinate block belongs to species chemident[k]
+   (chemident = [self.chemistry.index(name) for name in the name line]; blocks may come in any order and
+   absent species may be left out); zip(Nspecies, chemident) pairs blocks and species *)
+Definition read_calls_named (chemident : list Z) (blocks : list (list Z)) : list (Z * Z) :=
+  flat_map (fun p => map (fun i => (i, fst p)) (snd p)) (combine chemident blocks).
+
+Definition poscar_read_named (g : Z -> bool) (chemident : list Z) (blocks : list (list Z)) (s : sc) : sc * outcome :=
+  match blocks with
+  | [] => (s, IndexError)
+  | _ =>
+    let (s1, o1) := setocc_all g s (map (fun n => (n, -1)) (zrange (length (occ s)))) in
+    match o1 with
+    | OK => setocc_all g s1 (read_calls_named chemident blocks)
+    | _ => (s1, o1)
+    end
+  end.
+
 (* ---- the machine: the object being edited, a second object (the original of the last copy),
         and the last POSCAR text written ---------------------------------------------------- *)
 Record mach := mkM { cur : sc; saved : sc; clip : list (list Z) }.
